@@ -228,7 +228,7 @@ Proof. exact down_at_most_once. Qed.
 Print Assumptions C19_down_at_most_once.
 
 (* "A done callback never runs on a destroyed channel" is FALSE for the code as it is (finding
-   F-C19-2, findings/C19.md): RpcServer::onConnection destroys the channel on DOWN while the
+   F-21, was F-C19-2, findings/C19.md): RpcServer::onConnection destroys the channel on DOWN while the
    callbacks handed to services hold the raw `this`.  Witness: a request deferred by the service,
    the connection goes down, the service completes the request. *)
 Theorem C19_done_callback_safe_refuted :
